@@ -406,6 +406,74 @@ def b_copy_(P, s, a, b, c, name):
     return dict(f=lambda d, s_: d.copy_(s_, non_blocking=nb), ops=[("p", i), srcop], extra=extra, klass=klass, inplace=0)
 
 
+class _InplaceReLU:
+    mod = torch.nn.ReLU(inplace=True)
+
+
+def b_inplace(P, s, a, b, c, name):
+    """in-place operations on a quantized tensor (x *= k, x += r, ReLU(inplace=True), masked_fill_ ...): afterwards the SAME object
+    holds the result of the float program, re-quantized where it cannot be represented exactly"""
+    i = P.pick(s[0], lambda v: isq(v) and v.ndim >= 1 and v.numel() > 0)
+    if i is None:
+        return None
+    t = P.vals[i]
+    k = [0.5, 2.0, -1.5, 0.25, 3.0][a % 5]
+    dt = t.dtype if t.dtype in DTYPES else torch.float32
+    exact = isinstance(t, QBytesTensor) and not t.qtype.is_floating_point
+    resc = "rescale" if isinstance(t, QBytesTensor) and k > 0 else "requant"  # (a negative factor is not folded into the scale)
+    if name == "relu_":
+        f = [lambda t: t.relu_(), lambda t: torch.relu_(t), lambda t: F.relu(t, inplace=True), lambda t: _InplaceReLU.mod(t)][c % 4]
+        # codes of an integer grid are moved; anything else is re-quantized
+        return dict(f=f, ops=[i], klass="move" if exact else "requant", inplace=0)
+    if name == "neg_":
+        return dict(f=lambda t: t.neg_(), ops=[i], klass="neg" if exact else "requant", inplace=0)
+    if name == "zero_":
+        return dict(f=lambda t: t.zero_(), ops=[i], klass="move", inplace=0)
+    if name == "imul_scalar":
+        def f(t):
+            t *= k
+            return t
+        return dict(f=f if c % 2 else (lambda t: t.mul_(k)), ops=[i], klass=resc, factor=abs(k), inplace=0)
+    if name == "idiv_scalar":
+        def f(t):
+            t /= k
+            return t
+        return dict(f=f if c % 2 else (lambda t: t.div_(k)), ops=[i], klass=resc, factor=1.0 / abs(k), inplace=0)
+    if name == "iadd_scalar":
+        kk = k * 0.3 * float(deq(t).abs().max())
+        def f(t):
+            t += kk
+            return t
+        return dict(f=f if c % 2 else (lambda t: t.add_(kk)), ops=[i], klass="requant", inplace=0)
+    if name in ("iadd_tensor", "isub_tensor", "imul_tensor"):
+        # a residual / mask of the same shape, or broadcast along the leading dims
+        shape = list(t.shape) if c % 3 else list(t.shape[-1:])
+        other = gen.clamp_finite(_values(shape, dt, 7000 + b, 1.0).to(torch.float64) * 0.3 * float(deq(t).abs().max().to(torch.float64)), dt)
+        if name == "imul_tensor":
+            other = (_values(shape, dt, 7000 + b, 1.0) > 0).to(dt)  # a pruning mask
+        fn = {"iadd_tensor": lambda t, o: t.add_(o), "isub_tensor": lambda t, o: t.sub_(o), "imul_tensor": lambda t, o: t.mul_(o)}[name]
+        return dict(f=fn, ops=[("p", i), ("x", 0)], extra=[("plain", other)], klass="requant", inplace=0)
+    if name == "clamp_":
+        lim = 0.4 * float(deq(t).abs().max())
+        f = [lambda t: t.clamp_(min=0), lambda t: t.clamp_(-lim, lim), lambda t: t.clamp_(max=lim)][c % 3]
+        return dict(f=f, ops=[i], klass="requant", inplace=0)
+    if name == "masked_fill_":
+        mask = _values(list(t.shape), torch.float32, 7100 + b, 1.0) > 0
+        val = [0.0, 0.0, 0.25 * float(deq(t).abs().max()), float("-inf")][c % 4]
+        if val == float("-inf"):
+            val = -0.5 * float(deq(t).abs().max())
+        return dict(f=lambda t: t.masked_fill_(mask, val), ops=[i], klass="requant", inplace=0)
+    if name == "fill_":
+        val = [0.0, 0.3, -0.6][c % 3] * float(deq(t).abs().max())
+        return dict(f=lambda t: t.fill_(val), ops=[i], klass="requant", inplace=0)
+    if name == "sigmoid_":
+        return dict(f=[lambda t: t.sigmoid_(), lambda t: t.tanh_(), lambda t: F.hardtanh(t, inplace=True)][c % 3], ops=[i], klass="requant", inplace=0)
+    return None
+
+
+INPLACE = ["relu_", "relu_", "neg_", "zero_", "imul_scalar", "idiv_scalar", "iadd_scalar", "iadd_tensor", "isub_tensor", "imul_tensor", "clamp_", "masked_fill_", "fill_", "sigmoid_"]
+
+
 def b_scalar(P, s, a, b, c, name):
     i = P.pick(s[0], is_ft)
     if i is None:
@@ -654,6 +722,8 @@ BUILDERS["where"] = b_where
 for _n in ("mm", "matmul2", "bmm", "matmul", "linear", "linear_nobias", "linear_nd"):
     BUILDERS[_n] = b_contract
 BUILDERS["pad"] = b_pad
+for _n in set(INPLACE):
+    BUILDERS[_n] = b_inplace
 
 # operations whose quantized result is known to keep a reference to its input's scale and/or payload (finding D26/D33)
 SHARING_OPS = {"view", "reshape", "flatten", "unflatten", "t", "transpose", "permute", "mT", "slice", "select", "getitem0", "narrow", "unsqueeze", "squeeze",
@@ -668,7 +738,7 @@ PASSTHROUGH = ["abs", "exp", "tanh", "gelu", "silu", "sum", "mean", "amax", "arg
                "ones_like", "sign", "square", "isfinite", "std", "masked_fill", "tolist_sum", "numel", "size", "dim", "add", "sub", "mul_tensor",
                "div_tensor", "maximum", "equal", "cosine_similarity", "gt", "eq", "index_select", "flip", "numpy_sum", "repr", "is_same_size"]
 SEMANTIC = ["clone", "detach", "neg", "relu", "frelu", "mul_scalar", "rmul_scalar", "div_scalar", "where", "lt", "lt_m", "lt_scalar", "softmax", "copy_", "cat", "stack", "split", "t", "transpose"]
-ALLOPS = INTERCEPTED + INTERCEPTED + SEMANTIC + SEMANTIC + PASSTHROUGH  # intercepted ops (and those acting on codes) more likely
+ALLOPS = INTERCEPTED + INTERCEPTED + SEMANTIC + SEMANTIC + PASSTHROUGH + INPLACE  # intercepted ops (and those acting on codes) more likely
 
 
 @st.composite
@@ -776,6 +846,22 @@ def compare_tensor(out, tag, klass, res, ref, info):
             if not _teq(d, ref):
                 out.fail(f"{tag}/value", "fallback result differs from the float op")
             return
+        if isinstance(res, QBitsTensor):
+            # an affine result: codes within one step of (float result / scale + zero-point), saturating at the ends of the range
+            cc = cut(O.unpacked_codes, res)
+            if isinstance(cc, Raised) or tuple(cc[0].shape) != tuple(ref.shape):
+                return
+            c, sg, zg = cc
+            target = r64 / sg + zg
+            if not info.get("nosat"):
+                target = target.clamp(0, 2**res.qtype.bits - 1)
+            target = torch.where(torch.isnan(target), c, target)
+            tol = 1.0 + 2 * ((r64 / sg).abs() * u + eta / sg.abs()) + 1e-9
+            bad = ~((c - target).abs() <= tol)
+            if bool(bad.any()):
+                i = int(torch.nonzero(bad.reshape(-1))[0])
+                out.fail(f"{tag}/value", f"{int(bad.sum())} elements more than one output step away: float result/scale + zero-point {target.reshape(-1)[i].item()!r}, code {c.reshape(-1)[i].item()!r} ({describe(res)})")
+            return
         if not isinstance(res, QBytesTensor):
             return
         G = O.grid(res.qtype)
@@ -787,6 +873,8 @@ def compare_tensor(out, tag, klass, res, ref, info):
         _, lo, hi = O.nearest_dist(qq, G)
         step = (hi - lo)
         target = qq.clamp(G[0], G[-1])
+        if info.get("nosat"):
+            target = qq  # the result carries its own scale: nothing may saturate
         tol = step + 2 * (target.abs() * u + eta) + 1e-300
         bad = ~((c - target).abs() <= tol)
         if bool(bad.any()):
@@ -955,6 +1043,8 @@ def run_program(case, mode, out=None):
                 sa = operands[0]._scale.to(torch.float64).abs().min()
                 sb = operands[1]._scale.to(torch.float64).abs().min()
                 info["cmax2"] = float((mag / (sa * sb)).max()) / max(K, 1) if float(sa * sb) > 0 else 1.0
+        if klass == "requant" and inplace is not None and name != "copy_":
+            info["nosat"] = True
         if klass in ("rescale", "neg"):
             src = operands[0]
             info["factor"] = r.get("factor", 1.0)
@@ -1019,6 +1109,9 @@ def run_program(case, mode, out=None):
                         # a float alias of the destination: the quantized world may legitimately hold an independent
                         # copy there (results of fallbacks are new tensors). Re-synchronise the twin with what the
                         # user can observe, so that later frame checks compare like with like.
+                        if v is operands[inplace]:
+                            P.twins[j] = P.twins[idxs[inplace]]  # the very same object under another pool index (x.to(its own dtype) is x)
+                            continue
                         cur = cut(deq, v)
                         if isinstance(cur, torch.Tensor):
                             P.twins[j] = cur.clone()
